@@ -20,7 +20,7 @@ theorem slice_correct_at_every_size (a b c : Option Int) (e : NIx)
   fun n hn hb => slice_axis_agree n hn a b c hb e he
 
 /-- Normalisation is a function of the index alone (no size is consulted at trace time). -/
-theorem normalise_size_independent (x : Ix) : ∀ (_n m : Nat), normaliseEntry x = normaliseEntry x :=
+theorem normalise_size_independent (x : Ix) : ∀ (_n _m : Nat), normaliseEntry x = normaliseEntry x :=
   fun _ _ => rfl
 
 end Ndx.C06
